@@ -388,9 +388,11 @@ macro_rules! impl_nio_read {
                     return self.inner.$syscall(fn_ptr, $fd, $($arg, )*);
                 }
                 let blocking = $crate::syscall::is_blocking($fd);
-                if blocking {
-                    $crate::syscall::set_non_blocking($fd);
+                if !blocking {
+                    // the caller asked for non-blocking semantics: never wait on its behalf
+                    return self.inner.$syscall(fn_ptr, $fd, $($arg, )*);
                 }
+                $crate::syscall::set_non_blocking($fd);
                 let start_time = $crate::common::now();
                 let mut left_time = $crate::syscall::recv_time_limit($fd);
                 let mut r = -1;
@@ -463,9 +465,12 @@ macro_rules! impl_nio_read_buf {
                     return self.inner.$syscall(fn_ptr, $fd, $buf, $len, $($($arg, )*)?);
                 }
                 let blocking = $crate::syscall::is_blocking($fd);
-                if blocking {
-                    $crate::syscall::set_non_blocking($fd);
+                if !blocking || 0 == $len {
+                    // the caller asked for non-blocking semantics (never wait on its behalf),
+                    // or for nothing at all (a zero-length request returns what the kernel says)
+                    return self.inner.$syscall(fn_ptr, $fd, $buf, $len, $($($arg, )*)?);
                 }
+                $crate::syscall::set_non_blocking($fd);
                 let start_time = $crate::common::now();
                 let mut left_time = $crate::syscall::recv_time_limit($fd);
                 let mut received = 0;
@@ -498,7 +503,6 @@ macro_rules! impl_nio_read_buf {
                             $fd,
                             Some(wait_time)
                         ).is_err() {
-                            r = received.try_into().expect("received overflow");
                             break;
                         }
                     } else if error_kind != std::io::ErrorKind::Interrupted {
@@ -507,6 +511,11 @@ macro_rules! impl_nio_read_buf {
                 }
                 if blocking {
                     $crate::syscall::set_blocking($fd);
+                }
+                if received > 0 {
+                    // report what was really transferred, -1 only if nothing was
+                    $crate::syscall::reset_errno();
+                    r = received.try_into().expect("received overflow");
                 }
                 r
             }
@@ -549,102 +558,65 @@ macro_rules! impl_nio_read_iovec {
                 if !$crate::syscall::is_socket($fd) {
                     return self.inner.$syscall(fn_ptr, $fd, $iov, $iovcnt, $($arg, )*);
                 }
+                let vec = unsafe {
+                    std::slice::from_raw_parts($iov, $iovcnt.try_into().expect("overflow"))
+                };
+                let total: usize = vec.iter().map(|v| v.iov_len).sum();
                 let blocking = $crate::syscall::is_blocking($fd);
-                if blocking {
-                    $crate::syscall::set_non_blocking($fd);
+                if !blocking || 0 == total {
+                    // the caller asked for non-blocking semantics (never wait on its behalf),
+                    // or for nothing at all (a zero-length request returns what the kernel says)
+                    return self.inner.$syscall(fn_ptr, $fd, $iov, $iovcnt, $($arg, )*);
                 }
+                $crate::syscall::set_non_blocking($fd);
                 let start_time = $crate::common::now();
                 let mut left_time = $crate::syscall::recv_time_limit($fd);
-                let vec = unsafe {
-                    Vec::from_raw_parts(
-                        $iov.cast_mut(),
-                        $iovcnt.try_into().expect("overflow"),
-                        $iovcnt.try_into().expect("overflow"),
-                    )
-                };
-                let mut length = 0;
-                let mut received = 0usize;
+                let mut done = 0usize;
                 let mut r = -1;
-                let mut index = 0;
-                for iovec in &vec {
-                    let stage = length;
-                    let mut offset = received.saturating_sub(stage);
-                    length += iovec.iov_len;
-                    if received > length {
-                        index += 1;
-                        continue;
+                while done < total && left_time > 0 {
+                    // only the caller's ranges that are not transferred yet, in order
+                    let arg = $crate::syscall::remaining_iovecs(vec, done);
+                    r = self.inner.$syscall(
+                        fn_ptr,
+                        $fd,
+                        arg.as_ptr(),
+                        std::ffi::c_int::try_from(arg.len()).unwrap_or_else(|_| {
+                            panic!("{} iovcnt overflow", $crate::common::constants::SyscallName::$syscall)
+                        }),
+                        $($arg, )*
+                    );
+                    if r > 0 {
+                        $crate::syscall::reset_errno();
+                        done += libc::size_t::try_from(r).expect("r overflow");
+                        // like the native call: return what could be transferred now
+                        break;
                     }
-                    let mut arg = Vec::new();
-                    for i in vec.iter().skip(index) {
-                        arg.push(*i);
+                    if 0 == r {
+                        // end of stream
+                        break;
                     }
-                    while received < length && left_time > 0 {
-                        // Assuming iov_len is 4, but only 1 is read, at this point we should continue trying to fill the current iovec
-                        if 0 != offset {
-                            arg[0] = libc::iovec {
-                                iov_base: (arg[0].iov_base as usize + offset) as *mut std::ffi::c_void,
-                                iov_len: arg[0].iov_len - offset,
-                            };
-                        }
-                        r = self.inner.$syscall(
-                            fn_ptr,
+                    let error_kind = std::io::Error::last_os_error().kind();
+                    if error_kind == std::io::ErrorKind::WouldBlock {
+                        left_time = start_time
+                            .saturating_add($crate::syscall::recv_time_limit($fd))
+                            .saturating_sub($crate::common::now());
+                        let wait_time = std::time::Duration::from_nanos(left_time)
+                            .min($crate::common::constants::SLICE);
+                        if $crate::net::EventLoops::wait_read_event(
                             $fd,
-                            arg.as_ptr(),
-                            std::ffi::c_int::try_from(arg.len()).unwrap_or_else(|_| {
-                                panic!("{} iovcnt overflow", $crate::common::constants::SyscallName::$syscall)
-                            }),
-                            $($arg, )*
-                        );
-                        if r == 0 {
-                            r = received.try_into().expect("received overflow");
-                            std::mem::forget(vec);
-                            if blocking {
-                                $crate::syscall::set_blocking($fd);
-                            }
-                            return r;
-                        } else if r != -1 {
-                            $crate::syscall::reset_errno();
-                            received += libc::size_t::try_from(r).expect("r overflow");
-                            if received >= length {
-                                r = received.try_into().expect("received overflow");
-                                break;
-                            }
-                            offset = received.saturating_sub(stage);
+                            Some(wait_time)
+                        ).is_err() {
+                            break;
                         }
-                        let error_kind = std::io::Error::last_os_error().kind();
-                        if error_kind == std::io::ErrorKind::WouldBlock {
-                            //wait read event
-                            left_time = start_time
-                                .saturating_add($crate::syscall::recv_time_limit($fd))
-                                .saturating_sub($crate::common::now());
-                            let wait_time = std::time::Duration::from_nanos(left_time)
-                                .min($crate::common::constants::SLICE);
-                            if $crate::net::EventLoops::wait_read_event(
-                                $fd,
-                                Some(wait_time)
-                            ).is_err() {
-                                r = received.try_into().expect("received overflow");
-                                std::mem::forget(vec);
-                                if blocking {
-                                    $crate::syscall::set_blocking($fd);
-                                }
-                                return r;
-                            }
-                        } else if error_kind != std::io::ErrorKind::Interrupted {
-                            std::mem::forget(vec);
-                            if blocking {
-                                $crate::syscall::set_blocking($fd);
-                            }
-                            return r;
-                        }
-                    }
-                    if received >= length {
-                        index += 1;
+                    } else if error_kind != std::io::ErrorKind::Interrupted {
+                        break;
                     }
                 }
-                std::mem::forget(vec);
-                if blocking {
-                    $crate::syscall::set_blocking($fd);
+                $crate::syscall::set_blocking($fd);
+                if done > 0 {
+                    // report what was really transferred, -1 only if nothing was
+                    $crate::syscall::reset_errno();
+                    r = done.try_into().expect("overflow");
                 }
                 r
             }
@@ -688,9 +660,12 @@ macro_rules! impl_nio_write_buf {
                     return self.inner.$syscall(fn_ptr, $fd, $buf, $len, $($($arg, )*)?);
                 }
                 let blocking = $crate::syscall::is_blocking($fd);
-                if blocking {
-                    $crate::syscall::set_non_blocking($fd);
+                if !blocking || 0 == $len {
+                    // the caller asked for non-blocking semantics (never wait on its behalf),
+                    // or for nothing at all (a zero-length request returns what the kernel says)
+                    return self.inner.$syscall(fn_ptr, $fd, $buf, $len, $($($arg, )*)?);
                 }
+                $crate::syscall::set_non_blocking($fd);
                 let start_time = $crate::common::now();
                 let mut left_time = $crate::syscall::send_time_limit($fd);
                 let mut sent = 0;
@@ -723,7 +698,6 @@ macro_rules! impl_nio_write_buf {
                             $fd,
                             Some(wait_time),
                         ).is_err() {
-                            r = sent.try_into().expect("sent overflow");
                             break;
                         }
                     } else if error_kind != std::io::ErrorKind::Interrupted {
@@ -732,6 +706,11 @@ macro_rules! impl_nio_write_buf {
                 }
                 if blocking {
                     $crate::syscall::set_blocking($fd);
+                }
+                if sent > 0 {
+                    // report what was really transferred, -1 only if nothing was
+                    $crate::syscall::reset_errno();
+                    r = sent.try_into().expect("sent overflow");
                 }
                 r
             }
@@ -774,94 +753,64 @@ macro_rules! impl_nio_write_iovec {
                 if !$crate::syscall::is_socket($fd) {
                     return self.inner.$syscall(fn_ptr, $fd, $iov, $iovcnt, $($arg, )*);
                 }
+                let vec = unsafe {
+                    std::slice::from_raw_parts($iov, $iovcnt.try_into().expect("overflow"))
+                };
+                let total: usize = vec.iter().map(|v| v.iov_len).sum();
                 let blocking = $crate::syscall::is_blocking($fd);
-                if blocking {
-                    $crate::syscall::set_non_blocking($fd);
+                if !blocking || 0 == total {
+                    // the caller asked for non-blocking semantics (never wait on its behalf),
+                    // or for nothing at all (a zero-length request returns what the kernel says)
+                    return self.inner.$syscall(fn_ptr, $fd, $iov, $iovcnt, $($arg, )*);
                 }
+                $crate::syscall::set_non_blocking($fd);
                 let start_time = $crate::common::now();
                 let mut left_time = $crate::syscall::send_time_limit($fd);
-                let vec = unsafe {
-                    Vec::from_raw_parts(
-                        $iov.cast_mut(),
-                        $iovcnt.try_into().expect("overflow"),
-                        $iovcnt.try_into().expect("overflow"),
-                    )
-                };
-                let mut length = 0;
-                let mut sent = 0usize;
+                let mut done = 0usize;
                 let mut r = -1;
-                let mut index = 0;
-                for iovec in &vec {
-                    let stage = length;
-                    let mut offset = sent.saturating_sub(stage);
-                    length += iovec.iov_len;
-                    if sent > length {
-                        index += 1;
-                        continue;
+                while done < total && left_time > 0 {
+                    // only the caller's ranges that are not transferred yet, in order
+                    let arg = $crate::syscall::remaining_iovecs(vec, done);
+                    r = self.inner.$syscall(
+                        fn_ptr,
+                        $fd,
+                        arg.as_ptr(),
+                        std::ffi::c_int::try_from(arg.len()).unwrap_or_else(|_| {
+                            panic!("{} iovcnt overflow", $crate::common::constants::SyscallName::$syscall)
+                        }),
+                        $($arg, )*
+                    );
+                    if r > 0 {
+                        $crate::syscall::reset_errno();
+                        done += libc::size_t::try_from(r).expect("r overflow");
+                        // like the native call: return what could be transferred now
+                        break;
                     }
-                    let mut arg = Vec::new();
-                    for i in vec.iter().skip(index) {
-                        arg.push(*i);
+                    if 0 == r {
+                        break;
                     }
-                    while sent < length && left_time > 0 {
-                        if 0 != offset {
-                            arg[0] = libc::iovec {
-                                iov_base: (arg[0].iov_base as usize + offset) as *mut std::ffi::c_void,
-                                iov_len: arg[0].iov_len - offset,
-                            };
-                        }
-                        r = self.inner.$syscall(
-                            fn_ptr,
+                    let error_kind = std::io::Error::last_os_error().kind();
+                    if error_kind == std::io::ErrorKind::WouldBlock {
+                        left_time = start_time
+                            .saturating_add($crate::syscall::send_time_limit($fd))
+                            .saturating_sub($crate::common::now());
+                        let wait_time = std::time::Duration::from_nanos(left_time)
+                            .min($crate::common::constants::SLICE);
+                        if $crate::net::EventLoops::wait_write_event(
                             $fd,
-                            arg.as_ptr(),
-                            std::ffi::c_int::try_from(arg.len()).unwrap_or_else(|_| {
-                                panic!("{} iovcnt overflow", $crate::common::constants::SyscallName::$syscall)
-                            }),
-                            $($arg, )*
-                        );
-                        if r != -1 {
-                            $crate::syscall::reset_errno();
-                            sent += libc::size_t::try_from(r).expect("r overflow");
-                            if sent >= length {
-                                r = sent.try_into().expect("sent overflow");
-                                break;
-                            }
-                            offset = sent.saturating_sub(stage);
+                            Some(wait_time)
+                        ).is_err() {
+                            break;
                         }
-                        let error_kind = std::io::Error::last_os_error().kind();
-                        if error_kind == std::io::ErrorKind::WouldBlock {
-                            //wait write event
-                            left_time = start_time
-                                .saturating_add($crate::syscall::send_time_limit($fd))
-                                .saturating_sub($crate::common::now());
-                            let wait_time = std::time::Duration::from_nanos(left_time)
-                                .min($crate::common::constants::SLICE);
-                            if $crate::net::EventLoops::wait_write_event(
-                                $fd,
-                                Some(wait_time)
-                            ).is_err() {
-                                r = sent.try_into().expect("sent overflow");
-                                std::mem::forget(vec);
-                                if blocking {
-                                    $crate::syscall::set_blocking($fd);
-                                }
-                                return r;
-                            }
-                        } else if error_kind != std::io::ErrorKind::Interrupted {
-                            std::mem::forget(vec);
-                            if blocking {
-                                $crate::syscall::set_blocking($fd);
-                            }
-                            return r;
-                        }
-                    }
-                    if sent >= length {
-                        index += 1;
+                    } else if error_kind != std::io::ErrorKind::Interrupted {
+                        break;
                     }
                 }
-                std::mem::forget(vec);
-                if blocking {
-                    $crate::syscall::set_blocking($fd);
+                $crate::syscall::set_blocking($fd);
+                if done > 0 {
+                    // report what was really transferred, -1 only if nothing was
+                    $crate::syscall::reset_errno();
+                    r = done.try_into().expect("overflow");
                 }
                 r
             }
@@ -1105,6 +1054,26 @@ pub extern "C" fn recv_time_limit(fd: c_int) -> u64 {
         },
         |v| *v.value(),
     )
+}
+
+/// The caller's iovecs that are not completely transferred yet after `done` bytes, the first
+/// one advanced past what was already transferred (zero-length entries are dropped).
+#[must_use]
+pub fn remaining_iovecs(vec: &[libc::iovec], done: usize) -> Vec<libc::iovec> {
+    let mut skip = done;
+    let mut left = Vec::with_capacity(vec.len());
+    for v in vec {
+        if skip >= v.iov_len {
+            skip -= v.iov_len;
+            continue;
+        }
+        left.push(libc::iovec {
+            iov_base: (v.iov_base as usize + skip) as *mut std::ffi::c_void,
+            iov_len: v.iov_len - skip,
+        });
+        skip = 0;
+    }
+    left
 }
 
 pub(crate) fn get_time_limit(tv: &libc::timeval) -> u64 {
